@@ -378,7 +378,9 @@ func (e *Executor) executeTarget(
 	}
 
 	if isTainted {
-		go func() {
+		// Clear the taint before returning: a detached goroutine may not have finished
+		// (e.g. with a slow cache backend) when the process exits which leaves the target tainted
+		func() {
 			err = e.taintCache.Clear(ctx, target.Label)
 			if err != nil {
 				logger.Errorf("Failed to remove taint from target %s: %v", target.Label, err)
